@@ -22,8 +22,8 @@ MUTANTS = {
   # the old form (replace backslash-newline by a blank everywhere) no longer applies and its direct
   # translation (a blank at a real continuation) is an equivalent mutant; this is the nearest live one
   ('m6_unfold_first_row_of_string_unprotected', 'malt/pyct/parser.py',
-   "      elif tok.type == tokenize.STRING or tok.type == fstring_middle:\n        protected_rows.update(range(tok.start[0], tok.end[0]))",
-   "      elif tok.type == tokenize.STRING or tok.type == fstring_middle:\n        protected_rows.update(range(tok.start[0] + 1, tok.end[0]))"),
+   "      elif tok.type == tokenize.STRING or tok.type == fstring_middle:\n        string_rows.update(range(tok.start[0], tok.end[0]))",
+   "      elif tok.type == tokenize.STRING or tok.type == fstring_middle:\n        string_rows.update(range(tok.start[0] + 1, tok.end[0]))"),
   ('m7_leading_whitespace_spaces_only', 'malt/pyct/parser.py',
    "_LEADING_WHITESPACE = re.compile(r'\\s*')",
    "_LEADING_WHITESPACE = re.compile(r' *')"),
@@ -39,8 +39,8 @@ MUTANTS = {
    "      elif tok.type == tokenize.STRING or tok.type == fstring_middle:",
    "      elif tok.type == tokenize.STRING:"),
   ('m11_every_row_of_an_fstring_protected', 'malt/pyct/parser.py',
-   "  fstring_middle = getattr(tokenize, 'FSTRING_MIDDLE', None)\n  try:\n    for tok in tokenize.generate_tokens(io.StringIO(code_string).readline):\n",
-   "  fstring_middle = getattr(tokenize, 'FSTRING_MIDDLE', None)\n  fstart = []\n  try:\n    for tok in tokenize.generate_tokens(io.StringIO(code_string).readline):\n      if tok.type == getattr(tokenize, 'FSTRING_START', None):\n        fstart.append(tok.start[0])\n      elif tok.type == getattr(tokenize, 'FSTRING_END', None) and fstart:\n        protected_rows.update(range(fstart.pop(), tok.end[0]))\n"),
+   "  fstring_middle = getattr(tokenize, 'FSTRING_MIDDLE', None)\n  fully_tokenized = True\n  try:\n    for tok in tokenize.generate_tokens(io.StringIO(code_string).readline):\n",
+   "  fstring_middle = getattr(tokenize, 'FSTRING_MIDDLE', None)\n  fully_tokenized = True\n  fstart = []\n  try:\n    for tok in tokenize.generate_tokens(io.StringIO(code_string).readline):\n      if tok.type == getattr(tokenize, 'FSTRING_START', None):\n        fstart.append(tok.start[0])\n      elif tok.type == getattr(tokenize, 'FSTRING_END', None) and fstart:\n        protected_rows.update(range(fstart.pop(), tok.end[0]))\n"),
   ('m12_lambda_parameters_of_the_unwrapped_callable', 'malt/pyct/parser.py',
    "  code = func.__code__\n  names = code.co_varnames",
    "  code = inspect.unwrap(func).__code__\n  names = code.co_varnames"),
@@ -50,5 +50,21 @@ MUTANTS = {
   ('m14_islambda_trusts_the_function_name', 'malt/pyct/inspect_utils.py',
    "  return f.__code__.co_name == '<lambda>'",
    "  return f.__name__ == '<lambda>' or f.__code__.co_name == '<lambda>'"),
+  # round 3: signature families (equal name sets, roles permuted) and the rewrite-and-reload history
+  ('m15_lambda_lines_not_revalidated_after_file_change', 'malt/pyct/parser.py',
+   "  linecache.checkcache(f)\n  lines = linecache.getlines(f, mod.__dict__)",
+   "  lines = linecache.getlines(f, mod.__dict__)"),
+  # (mutants that merely loosen the matching - names compared as sets, *args/**kwargs only by presence -
+  # or make the true node unmatchable turn into the explicit "multiple/no matching" error the property
+  # allows; the ones below permute what is read, so that exactly one WRONG sibling matches)
+  ('m16_lambda_varkw_name_read_before_varargs_name', 'malt/pyct/parser.py',
+   "  varargs = None\n  if code.co_flags & inspect.CO_VARARGS:\n    varargs = names[pos]\n    pos += 1\n  if varargs != _arg_name(node.args.vararg):\n    return False\n\n  varkw = names[pos] if code.co_flags & inspect.CO_VARKEYWORDS else None\n",
+   "  varkw = None\n  if code.co_flags & inspect.CO_VARKEYWORDS:\n    varkw = names[pos]\n    pos += 1\n  varargs = names[pos] if code.co_flags & inspect.CO_VARARGS else None\n  if varargs != _arg_name(node.args.vararg):\n    return False\n\n"),
+  ('m17_lambda_kwonly_names_in_reverse_order', 'malt/pyct/parser.py',
+   "  if node_kwonlyargs != tuple(names[num_args:num_args + num_kwonlyargs]):",
+   "  if node_kwonlyargs != tuple(reversed(names[num_args:num_args + num_kwonlyargs])):"),
+  ('m18_lambda_positional_names_in_reverse_order', 'malt/pyct/parser.py',
+   "  if node_args != tuple(names[:num_args]):",
+   "  if node_args != tuple(reversed(names[:num_args])):"),
  ],
 }
